@@ -15,6 +15,7 @@ import (
 	"encoding/json"
 	"fmt"
 	"io"
+	"net"
 	"net/http"
 	"net/http/httptest"
 	"sync"
@@ -28,6 +29,8 @@ import (
 	"github.com/Nextdoor/pg-bifrost.git/partitioner"
 	"github.com/Nextdoor/pg-bifrost.git/shutdown"
 	"github.com/Nextdoor/pg-bifrost.git/stats"
+	"github.com/Nextdoor/pg-bifrost.git/stats/reporters"
+	rfactory "github.com/Nextdoor/pg-bifrost.git/stats/reporters/factory"
 	"github.com/Nextdoor/pg-bifrost.git/transport"
 	"github.com/Nextdoor/pg-bifrost.git/transport/batch"
 	"github.com/Nextdoor/pg-bifrost.git/transport/batcher"
@@ -426,10 +429,94 @@ func plumbingKinPut(w []string) (res string) {
 	return fmt.Sprintf("stream=%s calls=%d data=%s keys=%s", strings.Join(sl, "|"), len(calls), hexs(strings.Join(data, ";")), strings.Join(keys, ","))
 }
 
+// plumbing ddreport <nwindows> <ncounts>: the Datadog reporter as the reporter factory builds it (real statsd client,
+// its default client-side aggregation) against a local UDP socket. The aggregator's output for <nwindows> windows of one
+// histogram statistic (total, _avg, _max, _min each) and <ncounts> windows of one count statistic is queued as ONE burst
+// before the reporter starts. Observed: every metric line that arrives, as a sorted multiset.
+func plumbingDDReport(w []string) (res string) {
+	defer func() {
+		if r := recover(); r != nil {
+			res = fmt.Sprintf("panic %v", r)
+		}
+	}()
+	nw, _ := strconv.Atoi(w[2])
+	nc, _ := strconv.Atoi(w[3])
+	pc, err := net.ListenPacket("udp", "127.0.0.1:0")
+	if err != nil {
+		return "harness-error " + err.Error()
+	}
+	defer pc.Close()
+	var mu sync.Mutex
+	got := []string{}
+	go func() {
+		buf := make([]byte, 65536)
+		for {
+			n, _, err := pc.ReadFrom(buf)
+			if err != nil {
+				return
+			}
+			mu.Lock()
+			for _, l := range strings.Split(string(buf[:n]), "\n") {
+				if l = strings.TrimSpace(l); l != "" && strings.HasPrefix(l, "bifrost.") {
+					if k := strings.Index(l, "|#"); k >= 0 {
+						l = l[:k]
+					}
+					got = append(got, l)
+				}
+			}
+			mu.Unlock()
+		}
+	}()
+	sh := shutdown.NewShutdownHandler()
+	in := make(chan stats.Stat, 256)
+	total := 0
+	for i := 1; i <= nw; i++ {
+		ts := int64(i) * 60e9
+		for j, sfx := range []string{"", "_avg", "_max", "_min"} {
+			in <- stats.Stat{Component: "batcher", StatName: "batch_write_wait" + sfx, StatType: stats.Histogram, Unit: "ms", Value: int64(100*i + j), Timestamp: ts}
+			total++
+		}
+	}
+	for i := 1; i <= nc; i++ {
+		in <- stats.Stat{Component: "transport", StatName: "written", StatType: stats.Count, Unit: "count", Value: int64(1000 + i), Timestamp: int64(i) * 60e9}
+		total++
+	}
+	r, err := rfactory.New(sh, in, reporters.DATADOG, map[string]interface{}{config.VAR_NAME_DD_HOST: pc.LocalAddr().String(), config.VAR_NAME_DD_TAGS: []string{"env:verif"}})
+	if err != nil {
+		return "harness-error " + err.Error()
+	}
+	done := make(chan struct{})
+	go func() { defer close(done); r.Start() }()
+	for i := 0; i < 300; i++ {
+		time.Sleep(10 * time.Millisecond)
+		mu.Lock()
+		n := len(got)
+		mu.Unlock()
+		if n >= total && len(in) == 0 {
+			break
+		}
+	}
+	time.Sleep(50 * time.Millisecond)
+	close(in)
+	select {
+	case <-done:
+	case <-time.After(3 * time.Second):
+	}
+	time.Sleep(50 * time.Millisecond)
+	mu.Lock()
+	defer mu.Unlock()
+	sortStrings(got)
+	return fmt.Sprintf("lines=%d %s", len(got), strings.Join(got, ","))
+}
+
 func plumbingRun(c Case) ([]string, []string) {
 	outs := []string{}
 	for _, l := range c.Lines {
 		w := strings.Fields(l)
+		if len(w) == 4 && w[1] == "ddreport" {
+			outs = append(outs, plumbingDDReport(w))
+			continue
+		}
 		if len(w) == 4 && w[1] == "kinput" {
 			outs = append(outs, plumbingKinPut(w))
 			continue
@@ -464,6 +551,9 @@ func plumbingGen(r *Rng, tier string) Case {
 	ls := "-"
 	if len(list) > 0 {
 		ls = strings.Join(list, ",")
+	}
+	if r.Chance(8) {
+		return Case{[]string{fmt.Sprintf("plumbing ddreport %d %d", r.Range(1, 3), r.Range(0, 3))}}
 	}
 	if r.Chance(10) {
 		return Case{[]string{fmt.Sprintf("plumbing kinput %s %d", Pick(r, []string{"none", "tablename", "transaction", "transaction-bucket"}), r.Range(1, 5))}}
@@ -505,6 +595,12 @@ func plumbingMonitor(lines, outs []string, m *Model) []Violation {
 		}
 		if strings.HasPrefix(outs[i], "panic") {
 			vs = append(vs, Violation{"C17", "app.New panics on a configuration main.go accepts: " + l + " => " + outs[i], ""})
+			continue
+		}
+		if strings.HasPrefix(l, "plumbing ddreport") {
+			if want != outs[i] {
+				vs = append(vs, Violation{"C19", "what reaches Datadog is not what the aggregator reported (one metric line per reported statistic, counts as counts, histogram parts as gauges): wanted " + want + ", observed " + outs[i] + " (" + l + ")", ""})
+			}
 			continue
 		}
 		if strings.HasPrefix(l, "plumbing kinput") {
